@@ -4,6 +4,8 @@ from .common import *
 from . import chunk, facts
 from .. import grammar
 from ..grammar import fmt_tok
+from ..interp import stable
+from ..absint import State
 
 
 def writer_masks(m):
@@ -33,7 +35,7 @@ def run(env, rep):
         "when the field is >= 0xFFFFFF; R5: max_chunk_size is stored only after the SetChunkSize message carrying the same value was "
         "serialized under the old size; R7 (= the writer clauses of C01 R3): the continuation chunks of a message repeat the timestamp field "
         "(and therefore the extended timestamp) of the chunk that started it, and the header remembered per chunk stream is the one that was written; R8 (= C19 R1 for the serializer): the chunk size in force is always in [1, 2^31-1], the values a SetChunkSize message can announce - "
-        "a size the announcement cannot carry would be announced as something else than what is used.  Not decided: parsing by an independent decoder, per-chunk payload <= chunk size.")
+        "a size the announcement cannot carry would be announced as something else than what is used.  R9: every payload slice the splitting construct takes is at most max_chunk_size long (end <= start + max, or chunks(max)).  Not decided: parsing by an independent decoder.")
     spec = chunk.load_spec()
     m = chunk.ChunkModel(env, rep, "C07.anchors")
     if not m.ok:
@@ -214,6 +216,7 @@ def run(env, rep):
     I.CUR_BODY[0] = se
     from ..models import range_bounds
     n6 = 0
+    n9 = [0]
     for head, blocks in se.loops.items():
         for bi in sorted(blocks):
             t = se.blocks[bi]["term"]
@@ -228,6 +231,17 @@ def run(env, rep):
                 continue
             n6 += 1
             from ..interp import stable
+            # R9: the slice is at most one chunk size long (end <= start + max_chunk_size, the size stored in the serializer)
+            selfv = State().read((it.L(1), ()))
+            mxi = [i for i, f in enumerate(next(a for a in prog.adts.values() if a["pretty"] == "chunk_io::serializer::ChunkSerializer")["variants"][0]["fields"]) if f["name"] == "max_chunk_size"]
+            if mxi:
+                mx = S.read((("P", selfv), (("f", mxi[0], "max_chunk_size"),)))
+                cands = [mx, ("cast", "usize", mx)]
+                ok9 = any(S.prove_le(rb[1], ("bin", "Add", "usize", rb[0], c), 0) or S.prove_le(("bin", "Sub", "usize", rb[1], rb[0]), c, 0) for c in cands)
+                n9[0] += 1
+                rep.check("C07.R9", "slice-at-most-one-chunk-size", ok9, "every slice taken in the splitting loop is at most max_chunk_size long (end %s <= start + max)" % stable(rb[1])[:80],
+                          "the splitting loop takes the slice %s .. %s, whose length is not provably <= the chunk size in force: a chunk would carry more payload than was announced" % (
+                              stable(rb[0])[:80], stable(rb[1])[:120]), t["span"])
             rep.check("C07.R6", "slice-starts-inside-payload", S.prove_lt(rb[0], ln), "every slice taken in the splitting loop starts before the end of the payload (start %s < len)" % stable(rb[0]),
                       "the splitting loop can take a slice starting at %s, which is not provably < the payload length: a message whose length is an exact multiple of the chunk size "
                       "would get an extra, empty chunk after it is complete" % stable(rb[0]), t["span"])
@@ -236,7 +250,12 @@ def run(env, rep):
             # <[T]>::chunks never yields an empty slice (std documentation)
             n6 += 1
             rep.ok("C07.R6", "slices-from-chunks", "the payload is split by <[T]>::chunks, which yields only non-empty slices", o.span)
+            # <[T]>::chunks(n) yields slices of at most n elements (std documentation); n must be the chunk size in force
+            n9[0] += 1
+            rep.check("C07.R9", "chunks-of-chunk-size", "max_chunk_size" in o.what, "the payload is split by chunks(max_chunk_size)",
+                      "the payload is split by chunks(n) with n = %s, which is not the chunk size in force" % o.what, o.span)
     rep.floor("C07.R6", "payload slices taken by the splitting construct", n6, 1)
+    rep.floor("C07.R9", "payload slices whose length was compared with the chunk size", n9[0], 1)
     # ------------------------------------------------------------------ R7 continuation chunks repeat the first chunk's timestamp field
     from ..framework import PrefixReport, wants
     if wants(rep, "C07.R7"):
